@@ -161,7 +161,7 @@ const TOP_PLACEMENTS = {
   top_directive_like: P([0, ';']),
   top_export_default_obj: P(['var t3 = { kk: ', 0, ' };'], [{ ident: 'kk' }])
 }
-const LAYOUTS = ['same_line', 'own_line', 'after_bmp', 'crlf', 'tabs']
+const LAYOUTS = ['same_line', 'own_line', 'after_bmp', 'crlf', 'tabs', 'after_wide', 'after_zero_width']
 // how the literal is SPELLED: the report carries the decoded value, the window counts bytes of the value
 const SPELLINGS = {
   plain: (v) => ({ src: v, value: v }),
@@ -184,6 +184,8 @@ function buildProgram (placeName, lenIdx, layout, multiplicity, modified, same, 
     if (layout === 'own_line') emit(eol + '      ')
     if (layout === 'after_bmp') emit("/* ñ€ */ ")
     if (layout === 'tabs') emit('\t\t')
+    if (layout === 'after_wide') emit("/* 密码ＡＢ */ ")
+    if (layout === 'after_zero_width') emit("/* a\u200bb\u200d */ ")
     const sp = spell(value)
     const q = sp.quote || "'"
     lits.push({ value: sp.value, offset: text.length, ident: opts.ident || null, excluded: !!opts.excluded, quote: q, src: sp.src })
